@@ -314,3 +314,58 @@ Print Assumptions C17_history_alias_cache_faithful_without_mutation.
 Example C17_history_immutable_inhabited :
   immutable_history [] [ENew 0 [2; 5]; ESubmit 0 1; ENew 1 [2; 4; 5]; ESubmit 1 1; ESubmit 0 2; ESubmit 1 1].
 Proof. exact immutable_history_inhabited. Qed.
+
+(* ---- AQT jobs and the measurements of the submitted circuit (Vendor/AQTMeas.v) ----
+   An AQT job can say one thing about measuring: all qubits, at the end, in index order, reported under 'm'.  The
+   sampler of the working tree refuses every circuit that holds a measurement operation (checked on every run: circuits
+   with measurements in the middle / under other keys / on subsets / in another order / with invert masks are submitted
+   to AQTSampler and AQTSamplerLocalSimulator; what comes back must equal `aqt_sampler`, and, judged numerically, the
+   distribution of the circuit's own records). *)
+From VF Require Import Vendor.AQTMeas Vendor.AQTMeasProofs.
+
+Theorem C17_aqt_sampler_faithful : forall n c r, aqt_sampler n c = Some r -> r = circuit_records n c.
+Proof. exact aqt_sampler_faithful. Qed.
+Print Assumptions C17_aqt_sampler_faithful.
+
+Example C17_aqt_sampler_accepts_something : aqt_sampler 2 [AFlip [0]; AFlip [0; 1]] = Some [(key_m, [false; true])].
+Proof. reflexivity. Qed.
+
+Theorem C17_aqt_sampler_refuses : forall n c, aqt_sampler n c = None <-> existsb is_meas c = true \/ c = [].
+Proof. exact aqt_sampler_refuses. Qed.
+Print Assumptions C17_aqt_sampler_refuses.
+
+(* the only measurement a job can express is the vendor's own readout *)
+Theorem C17_aqt_terminal_readout_is_the_job : forall n g, existsb is_meas g = false ->
+  circuit_records n (g ++ [AMeas key_m (seq 0 n) []]) = job_records n (gates_of g).
+Proof. exact aqt_terminal_readout_is_the_job. Qed.
+Print Assumptions C17_aqt_terminal_readout_is_the_job.
+
+Example C17_aqt_terminal_readout_example :
+  existsb is_meas [AFlip [0]; AFlip [0; 1]] = false
+  /\ circuit_records 2 ([AFlip [0]; AFlip [0; 1]] ++ [AMeas key_m (seq 0 2) []]) = [(key_m, [false; true])].
+Proof. exact aqt_terminal_readout_example. Qed.
+
+(* posting the gates alone and letting the vendor read everything out does not mean a circuit whose measurements are
+   anything else (refuted; every witness is replayed on the implementation, which must refuse it) *)
+Theorem C17_aqt_gates_alone_refuted :
+  Forall (fun nc => existsb is_meas (snd nc) = true
+                    /\ job_records (fst nc) (gates_of (snd nc)) <> circuit_records (fst nc) (snd nc)) aqt_meas_witnesses.
+Proof. exact aqt_gates_alone_refuted. Qed.
+Print Assumptions C17_aqt_gates_alone_refuted.
+
+Theorem C17_aqt_sampler_refuses_witnesses :
+  Forall (fun nc => aqt_sampler (fst nc) (snd nc) = None) aqt_meas_witnesses.
+Proof. exact aqt_sampler_refuses_witnesses. Qed.
+Print Assumptions C17_aqt_sampler_refuses_witnesses.
+
+(* what the check asks of every answer of the implementation on a basis-state circuit (`aqt_answer_ok`: accepted => the
+   circuit's records; refused => refused by the model too) holds of the model sampler, and fails on every witness for the
+   readout of the gates alone *)
+Theorem C17_aqt_model_answer_ok : forall n c, aqt_answer_ok n c (aqt_sampler n c) = true.
+Proof. exact aqt_model_answer_ok. Qed.
+Print Assumptions C17_aqt_model_answer_ok.
+
+Theorem C17_aqt_answer_ok_rejects_gates_alone :
+  Forall (fun nc => aqt_answer_ok (fst nc) (snd nc) (Some (job_records (fst nc) (gates_of (snd nc)))) = false) aqt_meas_witnesses.
+Proof. exact aqt_answer_ok_rejects_gates_alone. Qed.
+Print Assumptions C17_aqt_answer_ok_rejects_gates_alone.
